@@ -291,8 +291,10 @@ MANIFEST = {
                  "C10_median_sort_invariant / _permutation_invariant (Go's unstable sort and store order are irrelevant), "
                  "C10_irrelevant_votes_no_influence (deleting all votes of ineligible validators, for non-whitelisted pairs and "
                  "all abstentions leaves the outcome unchanged), C10_expiry_exact (over histories of blocks), "
-                 "C10_threshold_within_half_unit, C10_no_panic_in_domain. The model is run against the real keeper "
-                 "(oracle.EndBlocker on the x/oracle fixture) on generated situations every run and the proved-sound checker "
+                 "C10_threshold_within_half_unit, C10_no_panic_in_domain; over histories of vote periods on one keeper: "
+                 "C10_history_holds, C10_period_end_clears_votes, C10_price_depends_only_on_votes_of_its_period (a published "
+                 "rate depends only on the votes submitted since the previous period end). The model is run against the real keeper "
+                 "(oracle.EndBlocker on the x/oracle fixture) on generated single calls AND multi-period histories every run and the proved-sound checker "
                  "Pb is evaluated on the implementation's own output. C10_refuted_before_fix proves the pre-d9ae51e code "
                  "violates the property (abstention published as price)."),
         "design_ref": "DESIGN.md §5 C10",
